@@ -120,6 +120,8 @@ pub struct TcpState {
     pub written: Vec<u8>,
     pub wcalls: Vec<WriteCall>,
     pub write_pendings: usize,
+    /// number of bytes accepted so far at each would-block of the write side
+    pub wpend_at: Vec<usize>,
     pub flush_pendings: usize,
     pub flushes: usize,
     /// number of bytes accepted when each successful flush happened
@@ -157,6 +159,7 @@ impl TcpState {
             written: Vec::new(),
             wcalls: Vec::new(),
             write_pendings: 0,
+            wpend_at: Vec::new(),
             flush_pendings: 0,
             flushes: 0,
             flushed_at: Vec::new(),
@@ -170,7 +173,7 @@ impl TcpState {
         }
     }
 
-    fn over_budget(&mut self, what: &'static str) -> Option<io::Error> {
+    pub fn over_budget(&mut self, what: &'static str) -> Option<io::Error> {
         self.calls += 1;
         if self.calls > self.max_calls {
             if self.overrun.is_none() {
@@ -196,7 +199,7 @@ impl TcpState {
         self.delivered >= self.rbytes.len() && self.rsteps.iter().all(|s| matches!(s, Step::Upto(_)))
     }
 
-    fn pend(&mut self, cx: &mut Context<'_>, deferred: bool) {
+    pub fn pend(&mut self, cx: &mut Context<'_>, deferred: bool) {
         if deferred {
             self.deferred.push(cx.waker().clone());
         } else {
@@ -204,7 +207,77 @@ impl TcpState {
         }
     }
 
-    fn do_write(&mut self, cx: &mut Context<'_>, bufs: &[&[u8]], vectored_call: bool) -> Poll<io::Result<usize>> {
+    /// one read call of the scripted socket (shared by the futures-io and the tokio front ends)
+    pub fn do_read(&mut self, cx: &mut Context<'_>, buf: &mut [u8]) -> Poll<io::Result<usize>> {
+        if let Some(e) = self.over_budget("read") {
+            return Poll::Ready(Err(e));
+        }
+        if buf.is_empty() {
+            self.empty_buf_reads += 1;
+            return Poll::Ready(Ok(0));
+        }
+        loop {
+            if self.delivered < self.avail {
+                let n = (self.avail - self.delivered).min(buf.len());
+                let d = self.delivered;
+                buf[..n].copy_from_slice(&self.rbytes[d..d + n]);
+                self.delivered += n;
+                self.reads.push((d, n, buf.len()));
+                return Poll::Ready(Ok(n));
+            }
+            match self.rsteps.pop_front() {
+                Some(Step::Upto(a)) => {
+                    let a = a.min(self.rbytes.len());
+                    if a > self.avail {
+                        self.avail = a;
+                    }
+                }
+                Some(Step::Pend { deferred }) => {
+                    self.read_pendings += 1;
+                    self.pend(cx, deferred);
+                    return Poll::Pending;
+                }
+                None => {
+                    if self.avail < self.rbytes.len() {
+                        // script shorter than the stream: everything else arrives at once
+                        self.avail = self.rbytes.len();
+                        continue;
+                    }
+                    match self.rend {
+                        ReadEnd::Eof => {
+                            self.eof_reads += 1;
+                            return Poll::Ready(Ok(0));
+                        }
+                        ReadEnd::Open => {
+                            self.parked_forever = true;
+                            return Poll::Pending;
+                        }
+                    }
+                }
+            }
+        }
+    }
+
+    pub fn do_flush(&mut self, cx: &mut Context<'_>) -> Poll<io::Result<()>> {
+        if let Some(e) = self.over_budget("flush") {
+            return Poll::Ready(Err(e));
+        }
+        match self.fsteps.pop_front() {
+            Some(Step::Pend { deferred }) => {
+                self.flush_pendings += 1;
+                self.pend(cx, deferred);
+                Poll::Pending
+            }
+            _ => {
+                self.flushes += 1;
+                let n = self.written.len();
+                self.flushed_at.push(n);
+                Poll::Ready(Ok(()))
+            }
+        }
+    }
+
+    pub fn do_write(&mut self, cx: &mut Context<'_>, bufs: &[&[u8]], vectored_call: bool) -> Poll<io::Result<usize>> {
         if let Some(e) = self.over_budget("write") {
             return Poll::Ready(Err(e));
         }
@@ -224,6 +297,7 @@ impl TcpState {
                 Some(Step::Upto(b)) => self.wlimit = self.wlimit.max(b),
                 Some(Step::Pend { deferred }) => {
                     self.write_pendings += 1;
+                    self.wpend_at.push(have);
                     self.pend(cx, deferred);
                     return Poll::Pending;
                 }
@@ -261,54 +335,7 @@ pub struct SimTcp(pub Arc<Mutex<TcpState>>);
 
 impl futures::io::AsyncRead for SimTcp {
     fn poll_read(self: Pin<&mut Self>, cx: &mut Context<'_>, buf: &mut [u8]) -> Poll<io::Result<usize>> {
-        let mut s = self.0.lock().unwrap();
-        if let Some(e) = s.over_budget("read") {
-            return Poll::Ready(Err(e));
-        }
-        if buf.is_empty() {
-            s.empty_buf_reads += 1;
-            return Poll::Ready(Ok(0));
-        }
-        loop {
-            if s.delivered < s.avail {
-                let n = (s.avail - s.delivered).min(buf.len());
-                let d = s.delivered;
-                buf[..n].copy_from_slice(&s.rbytes[d..d + n]);
-                s.delivered += n;
-                s.reads.push((d, n, buf.len()));
-                return Poll::Ready(Ok(n));
-            }
-            match s.rsteps.pop_front() {
-                Some(Step::Upto(a)) => {
-                    let a = a.min(s.rbytes.len());
-                    if a > s.avail {
-                        s.avail = a;
-                    }
-                }
-                Some(Step::Pend { deferred }) => {
-                    s.read_pendings += 1;
-                    s.pend(cx, deferred);
-                    return Poll::Pending;
-                }
-                None => {
-                    if s.avail < s.rbytes.len() {
-                        // script shorter than the stream: everything else arrives at once
-                        s.avail = s.rbytes.len();
-                        continue;
-                    }
-                    match s.rend {
-                        ReadEnd::Eof => {
-                            s.eof_reads += 1;
-                            return Poll::Ready(Ok(0));
-                        }
-                        ReadEnd::Open => {
-                            s.parked_forever = true;
-                            return Poll::Pending;
-                        }
-                    }
-                }
-            }
-        }
+        self.0.lock().unwrap().do_read(cx, buf)
     }
 }
 
@@ -323,23 +350,7 @@ impl futures::io::AsyncWrite for SimTcp {
         s.do_write(cx, &v, true)
     }
     fn poll_flush(self: Pin<&mut Self>, cx: &mut Context<'_>) -> Poll<io::Result<()>> {
-        let mut s = self.0.lock().unwrap();
-        if let Some(e) = s.over_budget("flush") {
-            return Poll::Ready(Err(e));
-        }
-        match s.fsteps.pop_front() {
-            Some(Step::Pend { deferred }) => {
-                s.flush_pendings += 1;
-                s.pend(cx, deferred);
-                Poll::Pending
-            }
-            _ => {
-                s.flushes += 1;
-                let n = s.written.len();
-                s.flushed_at.push(n);
-                Poll::Ready(Ok(()))
-            }
-        }
+        self.0.lock().unwrap().do_flush(cx)
     }
     fn poll_close(self: Pin<&mut Self>, _cx: &mut Context<'_>) -> Poll<io::Result<()>> {
         self.0.lock().unwrap().closes += 1;
